@@ -10,6 +10,9 @@ _SQLSTATE_RE = re.compile(r"\b([0-9A-Z]{5})\b")
 
 
 def _extract_sqlstate(args: Iterable[object]) -> str | None:
+    if not isinstance(args, tuple | list):
+        # A subclass may shadow `args` with anything (None, a number, ...): nothing to scan then.
+        return None
     for arg in args:
         if isinstance(arg, str):
             match = _SQLSTATE_RE.search(arg)
